@@ -10,3 +10,4 @@ CONSTANTS
   Resizes <- MiscResizes
   MaxDepth = 2
   Emit = TRUE
+  CheckDump = FALSE
